@@ -22,6 +22,8 @@ def run(ctx):
     chk.rule('Q5', 'the new buffer is as large as the old content; the part before the entry is copied whole to its start; '
                    'what is skipped lies within the entry\'s line (plus its newline) and is chosen by what follows the entry on '
                    'that line, so that libraries sharing the line stay; the rest is copied right behind; every copy is bounded', floor=5)
+    chk.rule('Q8', 'in the code disable reaches, buffers are written before they are read and every loop changes something '
+                   'its exit condition depends on', floor=5)
     chk.rule('Q6', 'own-entry recognition uses exactly the documented follower set and start-of-line test', floor=2)
     chk.explanation = (
         'Control-flow clauses by branch-polarity reachability; the three-part copy (before / skipped / after) is decided '
@@ -85,6 +87,8 @@ def run(ctx):
     chk.ob('Q4', 'duplicates-refused-before-write', ok, (dup or ff[0]).where(), F.name, detail,
            how='second active line found -> fatalError before the write')
     follower_test(ctx, prog, 'Q6')
+    from rules.C18 import cli_memory_rules
+    cli_memory_rules(ctx, prog, cg, DISABLE, 'Q8')
     # ---- Q5 ------------------------------------------------------------------------------------------
     newbuf = decl_of(arg(wc, 0))
     entry = common.holder(F, fe[0])
